@@ -11,7 +11,7 @@ use super::{
     TSetIdentifier, TStructIdentifier, TType, ThriftException, ZERO_COPY_THRESHOLD,
     error::ProtocolExceptionKind,
     new_protocol_exception,
-    rw_ext::{ReadExt, WriteExt, split_to_checked},
+    rw_ext::{ReadExt, WriteExt, read_exact_to_vec, split_to_checked},
 };
 
 const VERSION_LE: u32 = 0x88880000;
@@ -655,11 +655,14 @@ where
 
     #[inline]
     async fn read_bytes_vec(&mut self) -> Result<Vec<u8>, ThriftException> {
-        let len = self.reader.read_i32_le().await? as usize;
-        // FIXME: use maybe_uninit?
-        let mut v = vec![0; len];
-        self.reader.read_exact(&mut v).await?;
-        Ok(v)
+        let len = self.reader.read_i32_le().await?;
+        if len < 0 {
+            return Err(new_protocol_exception(
+                ProtocolExceptionKind::NegativeSize,
+                format!("negative binary length {}", len),
+            ));
+        }
+        Ok(read_exact_to_vec(&mut self.reader, len as usize).await?)
     }
 
     #[inline]
@@ -671,10 +674,7 @@ where
 
     #[inline]
     async fn read_string(&mut self) -> Result<String, ThriftException> {
-        let len = self.reader.read_i32_le().await? as usize;
-        // FIXME: use maybe_uninit?
-        let mut v = vec![0; len];
-        self.reader.read_exact(&mut v).await?;
+        let v = self.read_bytes_vec().await?;
         Ok(unsafe { String::from_utf8_unchecked(v) })
     }
 
